@@ -223,7 +223,7 @@ pub fn run(args: &Args) {
     let thorough = args.get("tier") == Some("thorough");
     let max_dim = args.get_u64("max-dim", 300) as usize;
     let exhaustive_upto = args.get_u64("exhaustive", if thorough { 14 } else { 12 }) as usize;
-    let random_per_dim = args.get_u64("random", if thorough { 6000 } else { 500 });
+    let random_per_dim = args.get_u64("random", if thorough { 40000 } else { 4000 });
     let e2e = args.get_u64("e2e", 1) == 1;
     let replay = args.kv.get("replay").map(|s| crate::parse_u64(s));
     crate::engine::install_quiet_panic_hook();
